@@ -485,6 +485,23 @@ theorem bodyRun_valid (mt : UInt8) (id : Bytes) (hid : id.length = 8) (rs : List
     · exact ⟨hid, hc, hd r (by simp)⟩
     · exact ih (fun r' hr' => hd r' (by simp [hr'])) _ (Nat.mod_lt _ (by decide)) f hf
 
+/-- With `Close` the pass-through it is, the wrapper returns for every call what the wrapped body returns, and
+the frames are those of the reads alone: `Close` calls, wherever they fall, change nothing. -/
+theorem callRun_spec (mt : UInt8) (id : Bytes) (cs : List Call) : ∀ ctr closed,
+    (callRun false mt id ctr closed cs).1 = cs ∧
+    (callRun false mt id ctr closed cs).2 = (bodyRun mt id ctr (Call.reads cs)).2 := by
+  induction cs with
+  | nil => intro ctr closed; exact ⟨rfl, rfl⟩
+  | cons c cs ih =>
+    intro ctr closed
+    cases c with
+    | read r =>
+      have := ih ((ctr + 1) % two32) closed
+      simp [callRun, bodyRead, Call.reads, bodyRun, this.1, this.2]
+    | close e =>
+      have := ih ctr true
+      simp [callRun, Call.reads, this.1, this.2]
+
 /-! ## buffers handed to the writer -/
 
 /-- `Alloc.fresh` (a `make` per frame): the retaining writer's view stays equal to the copying
